@@ -411,3 +411,176 @@ Theorem c02_refined_decode_extends_rough : forall c os s eff tl,
   si_decode_refined (inject_Z c) os s eff = si_decode c os s eff.
 Proof. intros. split; reflexivity. Qed.
 Print Assumptions c02_refined_decode_extends_rough.
+
+(* ================================================================== one batch of frames of DIFFERENT sizes
+   (a labels file with several videos + max_height / max_width size matching; model C02/MixedBatch.v,
+   proofs C02/LemmasMB.v).  `_predict_generator` appends one eff_scale per frame next to the image;
+   the inference models divide sample b by entry b.  `si_batch_with c pv effs fs` / `td_batch_with c effs fs`
+   decode sample b with entry b of ANY list `effs`; `si_batch` / `td_batch` / `gt_batch` / `co_batch` use the
+   list the code builds (`batch_effs`: entry b from frame b's own size). *)
+From SV Require Import C02.MixedBatch C02.LemmasMB.
+
+(* the list the code builds: one entry per frame, the factor of that frame's OWN size *)
+Theorem c02_batch_eff_scales_one_per_frame : forall mh mw sizes,
+  length (batch_effs mh mw sizes) = length sizes /\
+  (forall b hw, nth_error sizes b = Some hw ->
+     nth_error (batch_effs mh mw sizes) b = Some (sm_eff (sizematch (fst hw) (snd hw) mh mw))).
+Proof. intros. split; [apply batch_effs_length|apply batch_effs_nth]. Qed.
+Print Assumptions c02_batch_eff_scales_one_per_frame.
+
+(* with both maxima given every size-matched frame has the same shape: the batch can be stacked *)
+Theorem c02_batch_stackable : forall mh mw sizes s,
+  In s (batch_shapes (Some mh) (Some mw) sizes) -> s = (mh, mw).
+Proof. exact batch_shapes_uniform. Qed.
+Print Assumptions c02_batch_stackable.
+
+(* the zip: sample b is decoded with entry b of the list handed over, whatever it holds *)
+Theorem c02_batch_sample_uses_its_entry : forall c pv effs fs b f e,
+  nth_error fs b = Some f -> nth_error effs b = Some e ->
+  nth_error (si_batch_with c pv effs fs) b
+  = Some (map (si_kp_e (si_at c (sf_H f) (sf_W f)) pv e) (sf_kps f)).
+Proof. exact si_batch_with_nth. Qed.
+Print Assumptions c02_batch_sample_uses_its_entry.
+
+Theorem c02_topdown_batch_sample_uses_its_entry : forall c effs fs b f e,
+  nth_error fs b = Some f -> nth_error effs b = Some e ->
+  nth_error (td_batch_with c effs fs) b
+  = Some (let c' := td_at c (tf_H f) (tf_W f) in td_frame_g c' (set_eff (td_geom c') e) (tf_animals f)).
+Proof. exact td_batch_with_nth. Qed.
+Print Assumptions c02_topdown_batch_sample_uses_its_entry.
+
+(* single instance: the batch is the per-frame model frame by frame (each frame with the configuration
+   of its own size, hence its own eff_scale), for any mixture of sizes, any batch length *)
+Theorem c02_single_batch_is_per_frame : forall c pv fs,
+  si_batch c pv fs = map (fun f => si_run (si_at c (sf_H f) (sf_W f)) pv (sf_kps f)) fs.
+Proof. exact si_batch_is_per_frame. Qed.
+Print Assumptions c02_single_batch_is_per_frame.
+
+(* the decode bound for every frame of a mixed batch: half cell and registration term in the ORIGINAL
+   pixels of that frame (its own eff_scale) *)
+Theorem c02_single_batch_decode_bound : forall c pv fs b f row k x y px py a,
+  nth_error fs b = Some f -> nth_error (si_batch c pv fs) b = Some row ->
+  nth_error (sf_kps f) k = Some (Some (x, y)) -> nth_error row k = Some (Some (px, py), Some a) ->
+  let c' := si_at c (sf_H f) (sf_W f) in
+  (0 < si_os c')%Z -> 0 < si_scale c' -> 0 < si_eff c' ->
+  (0 < si_ncx c' pv)%Z -> (0 < si_ncy c' pv)%Z ->
+  in_band (si_ux c' pv x) (si_os c') (si_ncx c' pv) ->
+  in_band (si_uy c' pv y) (si_os c') (si_ncy c' pv) ->
+  Qabs (px - x) <= half_cell (si_os c') (si_scale c') (si_eff c')
+                   + reg_term (si_ux c' pv x) x (si_scale c') (si_eff c') /\
+  Qabs (py - y) <= half_cell (si_os c') (si_scale c') (si_eff c')
+                   + reg_term (si_uy c' pv y) y (si_scale c') (si_eff c').
+Proof. exact si_batch_within. Qed.
+Print Assumptions c02_single_batch_decode_bound.
+
+Theorem c02_single_batch_invisible_is_nan : forall c pv fs b f row k,
+  nth_error fs b = Some f -> nth_error (si_batch c pv fs) b = Some row ->
+  nth_error (sf_kps f) k = Some None -> nth_error row k = Some (None, None).
+Proof. exact si_batch_invisible. Qed.
+Print Assumptions c02_single_batch_invisible_is_nan.
+
+(* top-down: the same, crops / bbox re-addition included *)
+Theorem c02_topdown_batch_is_per_frame : forall c fs,
+  td_batch c fs = map (fun f => td_frame (td_at c (tf_H f) (tf_W f)) (tf_animals f)) fs.
+Proof. exact td_batch_is_per_frame. Qed.
+Print Assumptions c02_topdown_batch_is_per_frame.
+
+Theorem c02_topdown_batch_decode_bound : forall c fs b f row inst,
+  nth_error fs b = Some f -> nth_error (td_batch c fs) b = Some row -> In inst row ->
+  let c' := td_at c (tf_H f) (tf_W f) in
+  (0 < td_osi c')%Z -> 0 < td_si c' -> 0 < tg_eff (td_geom c') ->
+  (0 < ncells (tg_nix (td_geom c')) (td_osi c'))%Z -> (0 < ncells (tg_niy (td_geom c')) (td_osi c'))%Z ->
+  exists an, In an (tf_animals f) /\
+    length (ti_pts inst) = length (an_kps an) /\
+    (forall k, nth_error (an_kps an) k = Some None -> nth_error (ti_pts inst) k = Some (None, None)) /\
+    (forall k x y px py a,
+       nth_error (an_kps an) k = Some (Some (x, y)) ->
+       nth_error (ti_pts inst) k = Some (Some (px, py), Some a) ->
+       in_band (aff_apply (tg_px (td_geom c')) x - fst (ti_tl inst)) (td_osi c')
+               (ncells (tg_nix (td_geom c')) (td_osi c')) ->
+       in_band (aff_apply (tg_py (td_geom c')) y - snd (ti_tl inst)) (td_osi c')
+               (ncells (tg_niy (td_geom c')) (td_osi c')) ->
+       Qabs (px - x) <= half_cell (td_osi c') (td_si c') (tg_eff (td_geom c'))
+                        + reg_term (aff_apply (tg_px (td_geom c')) x) x (td_si c') (tg_eff (td_geom c')) /\
+       Qabs (py - y) <= half_cell (td_osi c') (td_si c') (tg_eff (td_geom c'))
+                        + reg_term (aff_apply (tg_py (td_geom c')) y) y (td_si c') (tg_eff (td_geom c'))).
+Proof. exact td_batch_within. Qed.
+Print Assumptions c02_topdown_batch_decode_bound.
+
+(* ground-truth centroids and centroid-only top-down: frame by frame as well *)
+Theorem c02_topdown_gt_batch_is_per_frame : forall fixed c fs,
+  gt_batch fixed c fs
+  = map (fun f => map (td_gt_instance fixed (td_at c (gf_H f) (gf_W f))) (gf_insts f)) fs.
+Proof. exact gt_batch_is_per_frame. Qed.
+Print Assumptions c02_topdown_gt_batch_is_per_frame.
+
+Theorem c02_centroid_only_batch_is_per_frame : forall fixed c fs,
+  co_batch fixed c fs = map (fun f => co_frame fixed (td_at c (tf_H f) (tf_W f)) (tf_animals f)) fs.
+Proof. exact co_batch_is_per_frame. Qed.
+Print Assumptions c02_centroid_only_batch_is_per_frame.
+
+(* a factor that is not the frame's own multiplies the whole answer by own / foreign *)
+Theorem c02_foreign_eff_scale_factor : forall cx os s e e' tl, 0 < s -> 0 < e -> 0 < e' ->
+  si_decode cx os s e == si_decode cx os s e' * (e' / e) /\
+  td_decode cx os s e tl == td_decode cx os s e' tl * (e' / e).
+Proof. intros. split; [now apply si_decode_foreign|now apply td_decode_foreign]. Qed.
+Print Assumptions c02_foreign_eff_scale_factor.
+
+(* "one factor for the whole batch" (the factor of the last frame read) is refuted: a 32x32 and a 64x64
+   frame matched to 64x64 in one batch; the small frame's keypoint (10, 12) comes back as (20, 24),
+   although it is in the band; the list the code builds returns (10, 12) *)
+Theorem c02_one_factor_per_batch_refuted :
+  exists c fs f x y px py a,
+    nth_error fs 0 = Some f /\ nth_error (sf_kps f) 0 = Some (Some (x, y)) /\
+    nth_error (si_batch_with c VideoReader (last_eff_for_all (si_mh c) (si_mw c) (map sf_size fs)) fs) 0
+      = Some [(Some (px, py), Some a)] /\
+    (let c' := si_at c (sf_H f) (sf_W f) in
+     in_band (si_ux c' VideoReader x) (si_os c') (si_ncx c' VideoReader) /\
+     in_band (si_uy c' VideoReader y) (si_os c') (si_ncy c' VideoReader) /\
+     ~ Qabs (px - x) <= half_cell (si_os c') (si_scale c') (si_eff c')
+                        + reg_term (si_ux c' VideoReader x) x (si_scale c') (si_eff c')) /\
+    (exists qx qy, nth_error (si_batch c VideoReader fs) 0 = Some [(Some (qx, qy), Some a)] /\ qx == x /\ qy == y).
+Proof. exact one_factor_per_batch_refuted. Qed.
+Print Assumptions c02_one_factor_per_batch_refuted.
+
+(* non-square crops: the crop geometry per axis — the centroid cell sits at the crop centre, width for
+   x and height for y; the network input is the crop padded per axis *)
+Theorem c02_crop_geometry_per_axis : forall c g cx cy a kps,
+  let i := td_instance_at c g cx cy a kps in
+  fst (ti_tl i) + (inject_Z (td_cw c) - 1) / 2 == inject_Z cx * inject_Z (td_osc c) / td_sc c * td_si c /\
+  snd (ti_tl i) + (inject_Z (td_ch c) - 1) / 2 == inject_Z cy * inject_Z (td_osc c) / td_sc c * td_si c /\
+  tg_nix (td_geom c) = pad_to_stride (td_cw c) (td_msi c) /\
+  tg_niy (td_geom c) = pad_to_stride (td_ch c) (td_msi c).
+Proof. exact td_crop_geometry_per_axis. Qed.
+Print Assumptions c02_crop_geometry_per_axis.
+
+(* non-vacuity: the mixed batch of the witness; the hypotheses of the bound are met by its small frame *)
+Example ex_mixed_batch :
+  Forall2 Qeq (batch_effs (si_mh wit_mb) (si_mw wit_mb) (map sf_size [wit_small; wit_large])) [2; 1] /\
+  (let c' := si_at wit_mb 32 32 in
+   (0 < si_ncx c' VideoReader)%Z /\ 0 < si_eff c' /\
+   in_band (si_ux c' VideoReader 10) (si_os c') (si_ncx c' VideoReader)).
+Proof.
+  split; [exact (proj1 wit_mb_effs)|]. split; [vm_compute; reflexivity|]. split; [vm_compute; reflexivity|].
+  split; vm_compute; discriminate.
+Qed.
+
+(* non-square crop (height 32, width 64; the other orientation gives another network input and another
+   corner): the frame of ex_topdown_witness *)
+Definition wit_td_nonsquare : td_cfg :=
+  {| td_H := 96; td_W := 120; td_mh := Some 128%Z; td_mw := Some 128%Z; td_sc := 1 # 2; td_si := 3 # 4;
+     td_msc := 16; td_msi := 16; td_osc := 2; td_osi := 2; td_ch := 32; td_cw := 64;
+     td_sigma := 3 # 2; td_lthr := - (1609438 # 1000000) |}.
+Example ex_topdown_nonsquare_crop :
+  (tg_nix (td_geom wit_td_nonsquare), tg_niy (td_geom wit_td_nonsquare)) = (64%Z, 32%Z) /\
+  exists inst, td_frame wit_td_nonsquare [wit_animal] = [inst] /\
+    map (fun p : kp * option Q => match fst p with Some _ => true | None => false end) (ti_pts inst)
+      = [true; false; true] /\
+    in_band (aff_apply (tg_px (td_geom wit_td_nonsquare)) 40 - fst (ti_tl inst)) (td_osi wit_td_nonsquare)
+            (ncells (tg_nix (td_geom wit_td_nonsquare)) (td_osi wit_td_nonsquare)) /\
+    in_band (aff_apply (tg_py (td_geom wit_td_nonsquare)) 24 - snd (ti_tl inst)) (td_osi wit_td_nonsquare)
+            (ncells (tg_niy (td_geom wit_td_nonsquare)) (td_osi wit_td_nonsquare)).
+Proof.
+  split; [vm_compute; reflexivity|]. eexists. split; [vm_compute; reflexivity|].
+  split; [vm_compute; reflexivity|split; split; vm_compute; discriminate].
+Qed.
